@@ -221,6 +221,7 @@ def sysLine (m : MState) (line : String) : MState :=
     let w := { w with loaded := w.loaded.filter (fun o => !(fam.contains o)) }
     let w := sampleConfigId w "/simul_efun.c"
     ({ m with sys := { m.sys with w := w } }).emit s!"restarted {w.configId}"
+  | "expect" :: _ => m
   | "reload" :: top :: fam =>
     if !m.cleaned then m.emit "badcase reload-before-clean" else
     let fam := top :: fam
@@ -273,7 +274,9 @@ def runModel (body : List String) : List String :=
   let m0 : MState := { blocks := splitBlocks trace,
                        sys := { w := { files := [("simul_efun.c", 2000000000)] } } }
   -- a crash of the model's own prediction stops the case like the sanitizer stops the driver
-  let m := caseLines.foldl (fun m l => if m.out.head? == some "crash sanitizer" then m else sysLine m l) m0
+  -- `reloadp` is `reload` in a new process: the same decisions
+  let norm (l : String) : String := if l.startsWith "reloadp " then "reload " ++ (l.drop 8).toString else l
+  let m := caseLines.foldl (fun m l => if m.out.head? == some "crash sanitizer" then m else sysLine m (norm l)) m0
   m.out.reverse
 
 def runJudge (body : List String) : List String :=
